@@ -55,6 +55,7 @@ type Obligation struct {
 	Validate      int
 	NoPanicCheck  bool // escaping panics are expected outcomes, not violations
 	Solver        string
+	PoolReuse     bool // pool=reuse: sync.Pool.Get returns the object Put last
 	NoOverride    map[string]bool // override targets disabled for this obligation
 	LazyMaps      bool // maps=lazy: map inserts with symbolic keys do not fork on key equality (x_c03.go)
 	IdxIte        bool // read buffers at symbolic indices through ite chains instead of case-splitting the index
@@ -326,6 +327,7 @@ func obligationsOf(hf *HarnessFile, property string) []*Obligation {
 			IdxIte:        kv["idx"] == "ite",
 			LazyMaps:      kv["maps"] == "lazy",
 			Solver:        kv["solver"],
+			PoolReuse:     kv["pool"] == "reuse",
 		}
 		if v := kv["nooverride"]; v != "" {
 			base.NoOverride = map[string]bool{}
